@@ -687,6 +687,11 @@ func (w *fdWorld) guarded(what string, budget uint64, f func()) (v *kernel.Viola
 		if r := recover(); r != nil {
 			site, where := kernel.PanicSite(3)
 			if _, isBudget := r.(budgetPanic); isBudget {
+				// identity: the API call that did not come back within the budget (where the count
+				// ran out is arbitrary and only goes into the detail)
+				if outer := kernel.OutermostLibSite(3); outer != "" {
+					site = outer
+				}
 				v = &kernel.Violation{Oracle: "bounded-time", Site: what + ":" + site,
 					Detail: fmt.Sprintf("%s exceeded the step budget of %d ticks for a %d-byte image (at %s)", what, w.budget, len(w.img), where)}
 				return
